@@ -116,6 +116,11 @@ func (c *Authority) VerifyPartialCert(cert hotstuff.PartialCert) error {
 func (c *Authority) VerifyQuorumCert(qc hotstuff.QuorumCert) error {
 	// genesis QC is always valid.
 	if qc.BlockHash() == hotstuff.GetGenesis().Hash() {
+		// It carries no signatures, so it certifies nothing but the genesis view: with any other view
+		// it would be an unbacked claim that a quorum has reached that view.
+		if qc.View() != hotstuff.GetGenesis().View() {
+			return fmt.Errorf("quorum certificate for the genesis block claims view %d", qc.View())
+		}
 		return nil
 	}
 
